@@ -11,19 +11,72 @@ type StateDesc struct {
 	Kind   string // clean | torn | zerotail | drop
 	T      int    // torn / zerotail: bytes of entry Prefix that reached the disk
 	Mask   int    // drop: bit j set = the (j+1)-th last data write before Prefix is lost
+	// Later: the history went on after the crash. The server was restarted and the sessions
+	// that follow the interrupted one were recorded and closed normally: their files are on
+	// disk next to the crash state (the interrupted segment is no longer the newest one).
+	Later bool
 }
 
 func (s StateDesc) String() string {
+	later := ""
+	if s.Later {
+		later = ", then restarted: the later sessions recorded and closed normally"
+	}
 	switch s.Kind {
 	case "clean":
-		return fmt.Sprintf("h%d after %d writes", s.Hist, s.Prefix)
+		return fmt.Sprintf("h%d after %d writes%s", s.Hist, s.Prefix, later)
 	case "torn":
-		return fmt.Sprintf("h%d after %d writes + %d bytes of the next", s.Hist, s.Prefix, s.T)
+		return fmt.Sprintf("h%d after %d writes + %d bytes of the next%s", s.Hist, s.Prefix, s.T, later)
 	case "zerotail":
-		return fmt.Sprintf("h%d after %d writes + next write with %d real bytes then zeros", s.Hist, s.Prefix, s.T)
+		return fmt.Sprintf("h%d after %d writes + next write with %d real bytes then zeros%s", s.Hist, s.Prefix, s.T, later)
 	default:
-		return fmt.Sprintf("h%d after %d writes with mask %b of the last writes lost", s.Hist, s.Prefix, s.Mask)
+		return fmt.Sprintf("h%d after %d writes with mask %b of the last writes lost%s", s.Hist, s.Prefix, s.Mask, later)
 	}
+}
+
+// opSessions maps every log entry to the session (publisher session = one run of the
+// recorder) that wrote it: sessionEnd[i] is the step at which session i was closed.
+func opSessions(ops []Op, sessionEnd []int) []int {
+	out := make([]int, len(ops))
+	for i, op := range ops {
+		s := 0
+		for s < len(sessionEnd)-1 && op.Step > sessionEnd[s] {
+			s++
+		}
+		out[i] = s
+	}
+	return out
+}
+
+// laterFrom returns the index of the first log entry written by a session after the one that
+// state s interrupts (len(ops) when the interrupted session is the last one), and whether s
+// differs from "the interrupted session was closed normally".
+func laterFrom(ops []Op, sess []int, s StateDesc) (int, bool) {
+	if len(ops) == 0 {
+		return 0, false
+	}
+	// the session being interrupted: the one of the write that is torn, or, between two
+	// writes, the one of the last write done
+	var cur int
+	switch {
+	case s.Kind == "torn" || s.Kind == "zerotail":
+		cur = sess[s.Prefix]
+	case s.Prefix == 0:
+		cur = sess[0]
+	default:
+		cur = sess[s.Prefix-1]
+	}
+	from := len(ops)
+	for i := range ops {
+		if sess[i] > cur {
+			from = i
+			break
+		}
+	}
+	// a clean prefix that ends with the session is "closed normally": adding the later
+	// sessions gives another clean prefix, not a new state
+	closed := s.Kind == "clean" && s.Prefix == from
+	return from, !closed
 }
 
 const sector = 512
@@ -63,8 +116,24 @@ func lastDataOps(ops []Op, prefix, k int) [][]int {
 //	      below 128, then every 8th),
 //	(iii) the next (appending) write with its size on disk but only the first t bytes of data,
 //	      the rest zero, for every t (quick tier: every t < 128, then every 4th),
-//	(iv)  every non-suffix subset of the last k<=3 writes lost (nothing is ever fsync'ed).
-func enumerate(hist int, ops []Op, everyByte bool) []StateDesc {
+//	(iv)  every non-suffix subset of the last k<=3 writes lost (nothing is ever fsync'ed),
+//	(v)   every state of (i)-(iv) that interrupts a session which is not the last one of the
+//	      history, followed by a restart: the files of the later sessions, closed normally, are
+//	      on disk as well.
+func enumerate(hist int, ops []Op, everyByte bool, sessionEnd []int) []StateDesc {
+	base := enumerateCrash(hist, ops, everyByte)
+	sess := opSessions(ops, sessionEnd)
+	out := base
+	for _, s := range base {
+		if from, distinct := laterFrom(ops, sess, s); from < len(ops) && distinct {
+			s.Later = true
+			out = append(out, s)
+		}
+	}
+	return out
+}
+
+func enumerateCrash(hist int, ops []Op, everyByte bool) []StateDesc {
 	var out []StateDesc
 	for i := 0; i <= len(ops); i++ {
 		out = append(out, StateDesc{Hist: hist, Prefix: i, Kind: "clean"})
@@ -118,7 +187,20 @@ func enumerate(hist int, ops []Op, everyByte bool) []StateDesc {
 }
 
 // materialise builds the directory image of a crash state.
-func materialise(ops []Op, s StateDesc) map[string][]byte {
+func materialise(ops []Op, sessionEnd []int, s StateDesc) map[string][]byte {
+	files := materialiseCrash(ops, s)
+	if s.Later {
+		// the restarted server never touches the files of an earlier session (the write log shows
+		// it: every entry of a later session creates or extends a file of its own)
+		from, _ := laterFrom(ops, opSessions(ops, sessionEnd), s)
+		for _, op := range ops[from:] {
+			applyOp(files, op, len(op.Data))
+		}
+	}
+	return files
+}
+
+func materialiseCrash(ops []Op, s StateDesc) map[string][]byte {
 	files := map[string][]byte{}
 	switch s.Kind {
 	case "clean", "torn", "zerotail":
